@@ -96,7 +96,7 @@ def run(rep, tier, rng):
     # ---- subsets of derived traits: the verdict for a trait must not depend on its companions ----
     subsets = M.closed_subsets()
     sub_reqs, sub_meta = [], []
-    pick = combos if tier == "thorough" else rng.sample(combos, 500)
+    pick = combos     # the full matrix is cheap in-process: both tiers enumerate it
     for combo in pick:
         for sub in subsets:
             if len(sub) == 5:
